@@ -926,7 +926,12 @@ class KmipEngine(object):
             elif attribute_name == "Sensitive":
                 field = "sensitive"
 
-            if field:
+            if field and not hasattr(managed_object, field):
+                raise exceptions.InvalidField(
+                    "The {0} attribute does not apply to this type of "
+                    "object.".format(attribute_name)
+                )
+            elif field:
                 existing_value = getattr(managed_object, field)
                 if existing_value:
                     if existing_value != value:
